@@ -232,6 +232,12 @@ fn run_generate(
             &config,
         )
         .unwrap_or(true) // On error, assume regeneration is needed
+            || (config.should_visualize_deps()
+                && !GenerationCache::visualization_is_current(
+                    &config.output_path,
+                    &analyzer.visualize_dependencies(&commands),
+                    &analyzer.generate_dot_graph(&commands),
+                ))
     };
 
     if !needs_regeneration {
